@@ -160,6 +160,8 @@ def run_case(cs, layout=None, rng=None):
         op = cs['op']
         if op == 'set_index':
             res = any_frame(f.set_index(P.dec(cs['lab']), drop=cs['drop']))
+        elif op == 'set_index_hierarchy_reorder':
+            res = any_frame(f.set_index_hierarchy(labs(cs['labs']), drop=cs['drop'], reorder_for_hierarchy=True))
         elif op == 'set_index_hierarchy':
             res = any_frame(f.set_index_hierarchy(labs(cs['labs']), drop=cs['drop']))
         elif op == 'unset_index':
@@ -289,6 +291,8 @@ def gen_reshape(rng):
         return {'op': 'set_index', 'f': f, 'lab': rng.choice([['s', 'v'], ['s', 'v'], ['s', 'k'], ['s', 'w'], ['s', 'zz']]), 'drop': rng.random() < 0.5}
     if q < 0.36:
         ls = rng.choice([[['s', 'k'], ['s', 'v']], [['s', 'k'], ['s', 'j']], [['s', 'j'], ['s', 'k'], ['s', 'v']], [['s', 'k'], ['s', 'j'], ['s', 'v']]])
+        if rng.random() < 0.35:
+            return {'op': 'set_index_hierarchy_reorder', 'f': f, 'labs': ls, 'drop': rng.random() < 0.5}          # rows as they come: the call puts them in tree order
         if rng.random() < 0.8:
             f = tree_sort(f, ls[:-1])
         return {'op': 'set_index_hierarchy', 'f': f, 'labs': ls, 'drop': rng.random() < 0.5}
